@@ -91,7 +91,7 @@ pub fn mutate(p: &mut Prog, src: &mut Src) -> Option<String> {
     let pick3 = src.next();
     let mut done: Option<String> = None;
     // mutate the k-th node satisfying `pred` among expression nodes
-    let mut on_expr = |p: &mut Prog, pred: &dyn Fn(&Expr) -> bool, act: &mut dyn FnMut(&mut Expr) -> String| -> Option<String> {
+    let on_expr = |p: &mut Prog, pred: &dyn Fn(&Expr) -> bool, act: &mut dyn FnMut(&mut Expr) -> String| -> Option<String> {
         let mut total = 0;
         walk_nodes(p, &mut |n| {
             if let Node::Expr(e) = n {
@@ -152,7 +152,7 @@ pub fn mutate(p: &mut Prog, src: &mut Src) -> Option<String> {
             if cands > 0 {
                 let target = vcommon::idx(pick, cands);
                 let mut i = 0;
-                let mut edit = |name: &str, a: &mut Vec<Expr>| -> String {
+                let edit = |name: &str, a: &mut Vec<Expr>| -> String {
                     match pick2 % 3 {
                         0 if !a.is_empty() => {
                             a.pop();
@@ -619,7 +619,7 @@ fn check(c: &Case, info: &mut CaseInfo) -> CheckResult {
                     };
                     let sig = if *k == ErrKind::StackUnderflow && short_recall(&c.prog) {
                         SIG_RECALL_ARITY
-                    } else if matches!(k, ErrKind::TypeMismatch | ErrKind::UnknownMember | ErrKind::Other) && incomplete_struct_literal(&c.prog) {
+                    } else if matches!(k, ErrKind::TypeMismatch | ErrKind::UnknownMember | ErrKind::Other) && (incomplete_struct_literal(&c.prog) || c.mutation.starts_with("struct literal")) {
                         SIG_INCOMPLETE_STRUCT
                     } else if matches!(k, ErrKind::TypeMismatch | ErrKind::UndefinedVar) && binding_in_alternation(&c.prog) {
                         SIG_BINDING_ALT
